@@ -1,5 +1,6 @@
 """C09 - structurally illegal designs are always rejected at elaboration (and legal ones are accepted)."""
 import copy
+import json
 import traceback
 
 from vlib import specgen as G
@@ -37,6 +38,8 @@ KINDS = ["dup-writer-same", "dup-writer-overlap-slice", "dup-writer-parent", "bl
          "op-other-augassign",
          # a stepped slice of a signal in a connect statement ( s.x[0:8:2] )
          "connect-stepped-slice",
+         # the wrong one of @= / <<= inside an @s.func helper that the block calls (directly or through another helper)
+         "op-cross-kind-in-func",
          # a register bit selected by a SIGNAL on the left of <<= (the constant-index form is op-ilshift-slice-in-ff)
          "ff-variable-bit-index"]
 
@@ -301,6 +304,21 @@ def inject(rng, design, kind):
         elif shape == "in-else": bad = ["if", ["cmp", "eq", ["rd", st[1]], ["c", 0, None]], [["=", st[1], ["c", 1 & G.mask(st[1]["w"]), None]]], [bad]]
         b["stmts"] = b["stmts"][:j] + [["=", st[1], ["c", 0, None]], bad] + b["stmts"][j + 1:]
         return d, {UB} if b["kind"] == "comb" else {UF}, dict(info, block=b["name"], wrong=wrong, shape=shape, target=G.ref_text(st[1]))
+    if kind == "op-cross-kind-in-func":
+      blks = [b for b in cls["blocks"] if b["kind"] in ("comb", "ff") and b["stmts"] and not b.get("lambda") and not b.get("emit_stmts") and not b.get("op")]
+      cands = [(b, j) for b in blks for j, st in enumerate(b["stmts"]) if st[0] == "=" and not st[1].get("sym")
+               and not any("tmp" in r for r in G.expr_refs(st[2], [])) and "lv" not in json.dumps(st[2])]
+      if cands:
+        b, j = rng.choice(cands)
+        wrong = "<<=" if b["kind"] == "comb" else "@="
+        funcs = cls.setdefault("funcs", {})
+        fn = f"zz_opf_{b['name']}"
+        funcs[fn] = {"stmts": [b["stmts"][j][:3] + [wrong]], "kind": b["kind"]}
+        call = fn
+        if rng.random() < 0.4:
+          funcs[fn + "_out"] = {"stmts": [["call", fn]], "kind": b["kind"]}; call = fn + "_out"
+        b["emit_stmts"] = [["raw", "s.reset"]] + b["stmts"][:j] + [["call", call]] + b["stmts"][j + 1:]
+        return d, {UB} if b["kind"] == "comb" else {UF}, dict(info, block=b["name"], wrong=wrong, nested=call != fn)
     if kind == "op-other-augassign":
       blks = [b for b in cls["blocks"] if b["kind"] in ("comb", "ff") and b["stmts"] and not b.get("lambda") and not b.get("emit_stmts")]
       cands = [(b, j) for b in blks for j, st in enumerate(b["stmts"]) if st[0] == "=" and not st[1].get("sym")]
